@@ -356,6 +356,9 @@ theorem inv_execAct {m : M} (hi : Inv m) {r : Nat} {rest : List Nat} (hs : m.sta
     | raise =>
       simp only
       exact inv_raiseIn hi hs _ rfl _
+    | raiseB e =>
+      simp only
+      exact inv_raiseIn hi hs _ rfl _
     | raiseStop =>
       simp only
       exact inv_raiseIn hi hs _ rfl _
@@ -430,7 +433,11 @@ theorem inv_handleReturn {m : M} (hi : Inv m) {r : Nat} {rest : List Nat}
   unfold M.handleReturn
   simp only
   split
-  · exact inv_advance' (Inv.of_coreEq (coreEq_addLog _ _) h0) r k _ rfl
+  · split
+    · exact inv_advance' (Inv.of_coreEq (coreEq_addLog _ _) h0) r k _ rfl
+    · split
+      · exact inv_raiseIn h0 hs0 _ rfl _
+      · exact inv_advance' (Inv.of_coreEq (coreEq_addLog _ _) h0) r k _ rfl
   · split
     · exact inv_advance' (Inv.of_coreEq (coreEq_addLog _ _) h0) r k _ rfl
     · exact inv_raiseIn h0 hs0 _ rfl _
@@ -845,7 +852,11 @@ theorem step_top {m : M} (hi : Inv m) {top : Nat} {rest : List Nat} (hs : m.stac
       unfold M.handleReturn
       simp only
       split
-      · left; simp [hrun]
+      · split
+        · left; simp [hrun]
+        · split
+          · right; exact hraise _ _ _ hs
+          · left; simp [hrun]
       · split
         · left; simp [hrun]
         · right; exact hraise _ _ _ hs
@@ -862,6 +873,7 @@ theorem step_top {m : M} (hi : Inv m) {top : Nat} {rest : List Nat} (hs : m.stac
         cases a with
         | yield v => right; simp [Spec.exitStates, hs]
         | raise => right; exact hraise _ _ _ hs
+        | raiseB e => right; exact hraise _ _ _ hs
         | raiseStop => right; exact hraise _ _ _ hs
         | yar v => right; simp [Spec.exitStates, hs]
         | ay v => right; simp [Spec.exitStates, hs]
@@ -1224,7 +1236,11 @@ theorem wf_handleReturn {m : M} (h : WFStack m) {top : Nat} {rest : List Nat}
   unfold M.handleReturn
   simp only
   split
-  · exact wf_advance (hl _) hs0 hn rfl _ _
+  · split
+    · exact wf_advance (hl _) hs0 hn rfl _ _
+    · split
+      · exact wf_raiseIn h0 hs0 hn _ _
+      · exact wf_advance (hl _) hs0 hn rfl _ _
   · split
     · exact wf_advance (hl _) hs0 hn rfl _ _
     · exact wf_raiseIn h0 hs0 hn _ _
@@ -1250,6 +1266,7 @@ theorem wf_execAct {m : M} (hi : Inv m) (h : WFStack m) {top : Nat} {rest : List
     cases a with
     | yield v => exact wf_exit h hst hn _ _
     | raise => exact wf_raiseIn h hst hn _ _
+    | raiseB e => exact wf_raiseIn h hst hn _ _
     | raiseStop => exact wf_raiseIn h hst hn _ _
     | yar v => exact wf_exit h hst hn _ _
     | ay v => exact wf_exit h hst hn _ _
